@@ -296,7 +296,9 @@ class UnitRegistry:
             k: (v[0], unyt_dims._intern_dimensions(v[1])) + tuple(v[2:])
             for k, v in copy.deepcopy(self.lut).items()
         }
-        ret = type(self)(lut=lut)
+        # the copy holds what the original holds: default symbols the user
+        # modified or removed must not be written over the copied table
+        ret = type(self)(lut=lut, add_default_symbols=False)
         ret._derived_symbols = set(self._derived_symbols or ())
         return ret
 
